@@ -45,14 +45,18 @@ func (a *arrayAppendStrategy) evaluate(m *MethodEvaluator) error {
 		arrayT.AppendArrayVariant(*evaluatedArgs[0])
 	}
 
-	base.SetValueT(
-		m.ctx.GetFrame(),
-		m.ctx.GetClass(),
-		m.ctx.GetMethod(),
-		arrayT.GetBeforeEvaluateCode(),
-		arrayT,
-		m.ctx.IsDefineStatic,
-	)
+	// a receiver that is not a plain variable has no name to bind: an empty name
+	// would be the key of the enclosing method itself
+	if arrayT.GetBeforeEvaluateCode() != "" {
+		base.SetValueT(
+			m.ctx.GetFrame(),
+			m.ctx.GetClass(),
+			m.ctx.GetMethod(),
+			arrayT.GetBeforeEvaluateCode(),
+			arrayT,
+			m.ctx.IsDefineStatic,
+		)
+	}
 
 	m.parser.SetLastEvaluatedT(arrayT)
 
